@@ -151,6 +151,9 @@ func (c *Authority) VerifyTimeoutCert(tc hotstuff.TimeoutCert) error {
 	if tc.View() == 0 {
 		return nil
 	}
+	if tc.Signature() == nil {
+		return fmt.Errorf("timeout certificate has nil signature (view=%d)", tc.View())
+	}
 	quorumSize := c.config.QuorumSize()
 	participants := tc.Signature().Participants()
 	if participants.Len() < quorumSize {
@@ -206,6 +209,9 @@ func (c *Authority) VerifyAnyQC(proposal *hotstuff.ProposeMsg) error {
 	qc := proposal.Block.QuorumCert()
 	aggQC := proposal.AggregateQC
 	if c.config.HasAggregateQC() && aggQC != nil {
+		if aggQC.Sig() == nil {
+			return fmt.Errorf("aggregate quorum certificate has nil signature (view=%d)", aggQC.View())
+		}
 		highQC, err := c.VerifyAggregateQC(*aggQC)
 		if err != nil {
 			return err
